@@ -890,6 +890,34 @@ func (env *SymEnv) applyCallEffects(call *ast.CallExpr) {
 			}
 		}
 		for _, a := range call.Args {
+			// unsafe.Pointer(&x) / unsafe.Pointer(p) handed to a body-less (assembly) routine: it may store through it
+			if bt, ok := p.Info.TypeOf(a).(*types.Basic); ok && bt.Kind() == types.UnsafePointer && (fd == nil || fd.Body == nil) {
+				if conv, ok := ast.Unparen(a).(*ast.CallExpr); ok && len(conv.Args) == 1 {
+					if tv, ok := p.Info.Types[conv.Fun]; ok && tv.IsType() {
+						inner := ast.Unparen(conv.Args[0])
+						if u, isAddr := inner.(*ast.UnaryExpr); isAddr && u.Op == token.AND {
+							inner = ast.Unparen(u.X)
+							if _, isIdx := inner.(*ast.IndexExpr); isIdx {
+								continue // element of a buffer: contents are not tracked
+							}
+						} else if ipt, ok := p.Info.TypeOf(inner).(*types.Pointer); !ok {
+							continue
+						} else if _, isStruct := ipt.Elem().Underlying().(*types.Struct); isStruct {
+							continue
+						}
+						env.nCall++
+						if id, isID := inner.(*ast.Ident); isID {
+							if obj := p.ObjOf(id); obj != nil {
+								env.vars[obj] = affAtom(fmt.Sprintf("%s@%s#%d", env.nameOf(id), fn.Name(), env.nCall))
+							}
+						} else if path, ok := env.lvalPath(inner); ok {
+							path = env.substRoot(path, inner)
+							env.fields[path] = affAtom(fmt.Sprintf("%s@%s#%d", path, fn.Name(), env.nCall))
+						}
+					}
+				}
+				continue
+			}
 			if pt, ok := p.Info.TypeOf(a).(*types.Pointer); ok {
 				if _, isStruct := pt.Elem().Underlying().(*types.Struct); !isStruct {
 					// pointer to a scalar/slice: the callee may overwrite it
